@@ -695,7 +695,31 @@ func (q *sfEq) node0(a, b ast.Node) bool {
 		return q.node(x.Key, y.Key) && q.node(x.Value, y.Value)
 	case *ast.CompositeLit:
 		y := b.(*ast.CompositeLit)
-		return q.node(x.Type, y.Type) && q.exprs(x.Elts, y.Elts)
+		if !q.node(x.Type, y.Type) || len(y.Elts) < len(x.Elts) || !q.exprs(x.Elts, y.Elts[:len(x.Elts)]) {
+			return false
+		}
+		// the second literal may additionally initialise slice fields with an EMPTY slice, `F: make([]T, 0, n)`, where the first leaves
+		// them nil: the two values differ only as nil / empty (which the property identifies)
+		for _, e := range y.Elts[len(x.Elts):] {
+			kv, ok := e.(*ast.KeyValueExpr)
+			if !ok {
+				return false
+			}
+			mc, ok := kv.Value.(*ast.CallExpr)
+			if !ok || len(mc.Args) != 3 {
+				return false
+			}
+			if fid := sfIdent(mc.Fun); fid == nil || q.ib.Uses[fid] != types.Universe.Lookup("make") {
+				return false
+			}
+			if _, isSlice := mc.Args[0].(*ast.ArrayType); !isSlice {
+				return false
+			}
+			if lit, ok := mc.Args[1].(*ast.BasicLit); !ok || lit.Value != "0" {
+				return false
+			}
+		}
+		return true
 	case *ast.ArrayType:
 		y := b.(*ast.ArrayType)
 		return q.node(x.Len, y.Len) && q.node(x.Elt, y.Elt)
